@@ -93,7 +93,18 @@ func genPlan(t *rapid.T, pool *kit.Pool) cplan {
 				}
 				return e
 			}
-			switch rapid.IntRange(0, 12).Draw(t, "kind") {
+			switch rapid.IntRange(0, 13).Draw(t, "kind") {
+			case 13:
+				// a batch the hub rejects as a whole (its last element carries a null reference), with new
+				// identifiers in it: it leaves nothing behind and does not disturb the writers beside it
+				n := rapid.IntRange(1, 3).Draw(t, "n")
+				var es []*kit.Ent
+				for i := 0; i < n; i++ {
+					e := mk(i)
+					e.ID = fmt.Sprintf("%s:rej-c%d-o%d-%d", pool.P[0], c, o, i)
+					es = append(es, e)
+				}
+				ops = append(ops, cop{K: "badbatch", DS: rapid.SampledFrom(c05Datasets).Draw(t, "ds"), Ents: es})
 			case 12:
 				// several clients create the SAME new dataset (CreateDataset of an existing name returns that
 				// dataset) and write to it as soon as their own call has returned
@@ -243,6 +254,12 @@ func runPlan(t *rapid.T, plan cplan, pool *kit.Pool, post func(h *WHub, failf fu
 					if err != nil {
 						errs <- fmt.Sprintf("client %d op %d: CreateDataset: %v", ci, oi, err)
 					}
+				case "badbatch":
+					es := append([]*kit.Ent{}, op.Ents...)
+					es = append(es, &kit.Ent{ID: pool.P[0] + ":bad", Props: map[string]any{}, Refs: map[string]any{pool.Preds[0]: []any{nil}}})
+					if err := h.StoreBatch(op.DS, es, "store"); err == nil {
+						errs <- fmt.Sprintf("client %d op %d: a batch whose last element carries a null reference was accepted", ci, oi)
+					}
 				case "mkshared":
 					if _, err := h.Dsm.CreateDataset(op.DS, nil); err != nil {
 						errs <- fmt.Sprintf("client %d op %d: CreateDataset(%s): %v", ci, oi, op.DS, err)
@@ -374,6 +391,9 @@ func runPlan(t *rapid.T, plan cplan, pool *kit.Pool, post func(h *WHub, failf fu
 		pos[ds] = map[string]int{}
 		for i, e := range feed {
 			st := stampOf(e)
+			if e.ID == "" || strings.Contains(e.ID, ":rej-") {
+				failf("SERIAL-FEED ds=%s: entry %d of the final feed has id %q (stamp %s): nothing of a rejected batch may be there and every stored version has its identifier", ds, i, e.ID, st)
+			}
 			if _, dup := pos[ds][st]; dup {
 				failf("SERIAL-DUP ds=%s stamp %s appears twice in the final feed", ds, st)
 			}
